@@ -268,6 +268,17 @@ func (pConn *PFCPConn) handlePFDMgmtRequest(msg message.Message) (message.Messag
 	// TODO: Analyse impact on PDRs referencing these IDs
 	pConn.ResetAppPFDs()
 
+	// A malformed element can make the decoding library panic half-way through (the
+	// caller recovers and drops the datagram): a request that is not accepted must
+	// leave the table as it was.
+	defer func() {
+		if r := recover(); r != nil {
+			pConn.appPFDs = currentAppPFDs
+
+			panic(r)
+		}
+	}()
+
 	errUnmarshalReply := func(err error, offendingIE *ie.IE) (message.Message, error) {
 		// Revert the map to original contents
 		pConn.appPFDs = currentAppPFDs
